@@ -11,6 +11,12 @@ from . import estimator as E
 def random_spec(seed):
     rng = random.Random(seed)
     spec = est_gen.random_object_spec(rng, 'MulticlassCarver', n=rng.randint(24, 64))
+    if rng.random() < 0.4:
+        # numeric class labels whose numeric and string orders disagree (5 < 10 < 20 but "10" < "20" < "5")
+        relabel = rng.choice([{0: 5, 1: 10, 2: 20, 3: 100}, {0: 2, 1: 10, 2: 11, 3: 3}, {0: 9, 1: 10, 2: 100, 3: 8}])
+        classes = sorted(set(spec['y']), key=str)
+        mp = {c: relabel[i] for i, c in enumerate(classes)}
+        spec['y'] = [mp[c] for c in spec['y']]
     p = spec['params']
     p['min_freq_mod'] = rng.choice([None, [1, 10], [1, 5], [1, 4], [3, 10]])
     p['copy'] = True
